@@ -1,6 +1,6 @@
 """Common machinery of the registered checks: harness handling, differential validation (DESIGN 2.7),
 replay (2.8), known findings, evidence writing, parallel job execution."""
-import ctypes, json, math, os, random, sys, time, traceback, multiprocessing, re, hashlib
+import glob, ctypes, json, math, os, random, sys, time, traceback, multiprocessing, re, hashlib
 from fractions import Fraction
 from . import build, interp, terms as T, engine, solver
 
@@ -13,6 +13,10 @@ def mpmath():
     import mpmath
     mpmath.mp.dps = 50
     return mpmath
+
+
+class NativeCrash(Exception):
+    pass
 
 
 class Harness:
@@ -41,11 +45,36 @@ class Harness:
         return self._lib
 
     def native(self, fn, inp, nout, fbits=64):
-        ct = ctypes.c_double if fbits == 64 else ctypes.c_float
-        a = (ct * max(1, len(inp)))(*inp)
-        o = (ct * max(1, nout))()
-        getattr(self.lib, fn)(a, o)
-        return list(o)[:nout]
+        """run the g++ -O2 build of the wrapper in a forked child, so that undefined behaviour in a (changed) library cannot take the
+        checking process down; a child killed by a signal raises NativeCrash"""
+        import struct as _st
+        f = getattr(self.lib, fn)
+        r, w = os.pipe()
+        pid = os.fork()
+        if pid == 0:
+            try:
+                os.close(r)
+                ct = ctypes.c_double if fbits == 64 else ctypes.c_float
+                a = (ct * max(1, len(inp)))(*inp)
+                o = (ct * max(1, nout))()
+                f(a, o)
+                data = _st.pack("<%dd" % nout, *[float(x) for x in list(o)[:nout]])
+                os.write(w, data)
+            finally:
+                os._exit(0)
+        os.close(w)
+        chunks = []
+        while True:
+            b = os.read(r, 65536)
+            if not b:
+                break
+            chunks.append(b)
+        os.close(r)
+        _, status = os.waitpid(pid, 0)
+        data = b"".join(chunks)
+        if os.WIFSIGNALED(status) or len(data) != 8 * nout:
+            raise NativeCrash("native wrapper %s died (signal %s) on input %r" % (fn, os.WTERMSIG(status) if os.WIFSIGNALED(status) else "?", list(inp)))
+        return list(_st.unpack("<%dd" % nout, data))
 
     def concrete(self, fn, inp, nout, fbits=64):
         m = interp.Machine(self.mod, mode="conc")
@@ -65,7 +94,7 @@ class Harness:
         cnt = 0
         for k in range(n):
             inp = sampler(k)
-            a = self.native(fn, inp, nout, fbits)
+            a = self.native(fn, inp, nout, fbits)   # NativeCrash propagates: the job reports it
             try:
                 b, _ = self.concrete(fn, inp, nout, fbits)
             except interp.PathAbort:
@@ -130,22 +159,81 @@ class Result:
                 self.functions.add(f)
 
 
-def run_jobs(jobs, nproc=None, timeout=None):
-    """jobs: list of (callable, args).  Each returns a Result.  Runs in a fork pool."""
+JOB_MEM_GB = [10]   # address-space cap per job process: a runaway normal form raises MemoryError (-> undecided/error), never an OOM kill
+
+
+def _child(job, conn):
+    try:
+        ctypes.CDLL("libc.so.6").prctl(1, 9)   # PR_SET_PDEATHSIG = SIGKILL: never outlive the check process
+    except Exception:
+        pass
+    try:
+        import resource
+        lim = JOB_MEM_GB[0] << 30
+        resource.setrlimit(resource.RLIMIT_AS, (lim, lim))
+    except Exception:
+        pass
+    try:
+        r = _run_job(job)
+    except BaseException as e:   # MemoryError outside the job's own handlers
+        r = Result()
+        r.errors.append("job %s: %r" % (getattr(job[0], "__name__", "?"), e))
+    try:
+        conn.send(r)
+    except BaseException as e:
+        r2 = Result()
+        r2.errors.append("job %s: result could not be sent: %r" % (getattr(job[0], "__name__", "?"), e))
+        conn.send(r2)
+    conn.close()
+
+
+def run_jobs(jobs, nproc=None, timeout=2400):
+    """jobs: list of (callable, args).  Each returns a Result.  One forked process per job, at most nproc at a time.  A process that dies
+    (undefined behaviour in a natively executed wrapper, memory cap) or exceeds the timeout yields an error Result: the run then exits 2,
+    never 0."""
     nproc = nproc or min(16, max(1, len(jobs)))
     if len(jobs) == 1 or os.environ.get("SYMX_SERIAL"):
         return [_run_job(j) for j in jobs]
-    with multiprocessing.get_context("fork").Pool(nproc, maxtasksperchild=1) as pool:
-        asyncs = [pool.apply_async(_run_job, (j,)) for j in jobs]
-        out = []
-        for j, a in zip(jobs, asyncs):
-            try:
-                out.append(a.get(timeout))
-            except Exception as e:  # timeout or crash
-                r = Result()
-                r.errors.append("job %s failed: %r" % (getattr(j[0], "__name__", "?"), e))
-                out.append(r)
-        return out
+    ctx = multiprocessing.get_context("fork")
+    out = [None] * len(jobs)
+    pending = list(range(len(jobs)))
+    running = {}
+    while pending or running:
+        while pending and len(running) < nproc:
+            i = pending.pop(0)
+            a, b = ctx.Pipe(duplex=False)
+            pr = ctx.Process(target=_child, args=(jobs[i], b))
+            pr.start()
+            b.close()
+            running[i] = (pr, a, time.time())
+        done = []
+        for i, (pr, a, t0) in running.items():
+            name = getattr(jobs[i][0], "__name__", "?")
+            if a.poll(0):
+                try:
+                    out[i] = a.recv()
+                except Exception as e:
+                    out[i] = Result()
+                    out[i].errors.append("job %s failed: %r" % (name, e))
+                done.append(i)
+            elif not pr.is_alive():
+                if a.poll(0.2):
+                    continue
+                out[i] = Result()
+                out[i].errors.append("job %s%r died (exit code %s)" % (name, tuple(str(x)[:30] for x in jobs[i][1]), pr.exitcode))
+                done.append(i)
+            elif time.time() - t0 > timeout:
+                pr.kill()
+                out[i] = Result()
+                out[i].errors.append("job %s%r failed: timeout after %ds" % (name, tuple(str(x)[:30] for x in jobs[i][1]), timeout))
+                done.append(i)
+        for i in done:
+            pr, a, _ = running.pop(i)
+            pr.join(5)
+            a.close()
+        if not done:
+            time.sleep(0.05)
+    return out
 
 
 JOB_BUDGET = [None]  # seconds of polynomial arithmetic per job; afterwards obligations come back undecided
@@ -158,6 +246,12 @@ def _run_job(job):
     T.DEADLINE[0] = (t0 + JOB_BUDGET[0]) if JOB_BUDGET[0] else None
     try:
         r = fn(*args)
+    except NativeCrash as e:
+        r = Result()
+        r.add_raw("native-run-completes", "violated", str(e)[:300])
+        r.paths, r.steps = 1, 1
+        r.violations.append({"key": "native-crash/%s" % getattr(fn, "__name__", "?"), "what": "the natively built wrapper crashed: %s" % str(e)[:400],
+                             "replay": {"kind": "memory", "key": "native-crash", "what": str(e)[:400]}})
     except Exception as e:
         r = Result()
         r.errors.append("job %s%r: %s\n%s" % (getattr(fn, "__name__", "?"), tuple(str(a)[:40] for a in args), e, traceback.format_exc()[-2500:]))
@@ -220,6 +314,8 @@ class Run:
             else:
                 new_vio.append(v)
         os.makedirs(os.path.join(EVID, "replay"), exist_ok=True)
+        for old in glob.glob(os.path.join(EVID, "replay", "%s-*.json" % self.pid)):   # replay files of earlier runs are stale
+            os.remove(old)
         for k, v in enumerate(new_vio):
             path = os.path.join(EVID, "replay", "%s-%d.json" % (self.pid, k))
             json.dump(v.get("replay", {"key": v["key"], "what": v["what"]}), open(path, "w"), indent=1, default=str)
@@ -266,12 +362,15 @@ class Run:
         if errors:
             for e in errors[:5]:
                 print("ERROR:", e, file=sys.stderr)
+        if new_vio:
+            return 1
+        if errors:
             # an internal error is not a property violation, but the run is not a pass either
             return 2
         if nob == 0 or paths == 0:
             print("ERROR: vacuous run (no obligations / no paths)", file=sys.stderr)
             return 2
-        return 1 if new_vio else 0
+        return 0
 
 
 # ---------------------------------------------------------------------------------------------- witness search / replay
@@ -332,11 +431,13 @@ def check_wrapper(res, h, fn, in_syms, nout, oracle, key, tol, sampler, assumpti
     terms for the solver and (b) evaluated numerically on the NATIVE outputs for replay).
     per_path(path, obls) may return a dict name -> handler overriding how an obligation is decided on that path."""
     res.functions.add(fn)
-    if nvalidate:
-        res.validated += h.validate(fn, sampler, nout, nvalidate, fbits)
     ex = engine.Explorer(h.mod, assumptions=assumptions, stubs=stubs, max_paths=max_paths, fbits=fbits, **(explorer_kw or {}))
     paths = ex.explore(fn, in_syms, nout)
     res.note_paths(paths, ex)
+    # the interpreter bounds-checks every access; only if no path has a memory error is it safe to run the wrapper natively
+    mem_bad = any(p.status == "memerror" for p in paths)
+    if nvalidate and not mem_bad:
+        res.validated += h.validate(fn, sampler, nout, nvalidate, fbits)
     if ex.truncated:
         res.errors.append("%s: path budget exhausted" % key)
     if on_paths:
@@ -403,12 +504,12 @@ def check_wrapper(res, h, fn, in_syms, nout, oracle, key, tol, sampler, assumpti
                 else:
                     rf = T.nf(T.Sub(l2, r2))
                     v = solver.check_identity(rf, pc=pg.pc, assumptions=assumptions, extra_rules=rules, timeout_ms=timeout_ms)
-            except T.PolyTooBig:
+            except (T.PolyTooBig, MemoryError):
                 v = solver.Verdict("undecided", "normal form too large")
             if v.status == "holds":
                 res.add(oname, v)
                 continue
-            w = find_witness(h, fn, names, nout, p, obl, name, tol, sampler, v.model, fbits, guard=gd)
+            w = None if mem_bad else find_witness(h, fn, names, nout, p, obl, name, tol, sampler, v.model, fbits, guard=gd)
             if w is not None:
                 v.status = "violated"
                 res.add(oname, v)
@@ -420,7 +521,7 @@ def check_wrapper(res, h, fn, in_syms, nout, oracle, key, tol, sampler, assumpti
             else:
                 how = v.how + (" ; solver model not reproduced natively within tol" if v.status == "violated" else "")
                 res.add_raw(oname, "undecided", how, v.dt)
-    if okpaths == 0:
+    if okpaths == 0 and not mem_bad:
         res.errors.append("%s: no completed path (vacuous)" % key)
     return paths
 
